@@ -24,6 +24,7 @@ type Case struct {
 	Toks   []Tok   `json:"toks"`
 	Raw    *string `json:"raw,omitempty"` // docs group: this literal document instead of the rendered tokens
 	Hist   *HistScript `json:"hist,omitempty"` // history-independence cases (hist.go): how to re-execute the history
+	Wide   *WideCase   `json:"wide,omitempty"` // groups wn / du (wide.go): the whole case
 	Alt    []Field     `json:"alt,omitempty"`  // split types (hist.go): the specs under the OTHER group of tag keys; Fields = those the entry reads
 	// filled in for replays / reports only
 	Type     string `json:"type,omitempty"`
